@@ -331,7 +331,8 @@ impl Check for Registries {
                     }
                 },
                 Kind::Keys => {
-                    let key = if rng.chance(70) { focus_key } else { rng.below(3) as u32 };
+                    // a signing key is (public key bytes, scheme): key ids >= 1000 reuse the bytes of id - 1000 under another scheme
+                    let key = match rng.below(10) { 0..=5 => focus_key, 6 => focus_key + 1000, 7 => 1000 + rng.below(3) as u32, _ => rng.below(3) as u32 };
                     if rng.chance(78) {
                         // aim at fresh (topic, registry) pairs for the focus key so that the per-key limit is reached
                         let mut cand = (rng.below(5) as u32, rng.below(5) as u32);
@@ -607,7 +608,8 @@ impl Check for Registries {
                 let id = e.register(Keys, ());
                 let c = KeysClient::new(e, &id);
                 let regs: std::vec::Vec<Address> = (0..5).map(|_| e.register(YesRegistry, ())).collect();
-                let pk = |k: u32| Bytes::from_array(e, &[k as u8 + 1; 32]);
+                let pk = |k: u32| Bytes::from_array(e, &[(k % 1000) as u8 + 1; 32]);
+                let sch = |k: u32| 1 + k / 1000;
                 let mut m: BTreeSet<(u32, u32, u32)> = BTreeSet::new();
                 for (i, s) in steps.iter().enumerate() {
                     if let Step::Wait { n } = s {
@@ -619,7 +621,7 @@ impl Check for Registries {
                     let before = w.storage_digest(&[&id]);
                     let (kind, got, exp) = match s {
                         Step::AllowKey { key, topic, reg } => {
-                            let g = c.try_allow(&pk(*key), &regs[*reg as usize], &1, topic).is_ok();
+                            let g = c.try_allow(&pk(*key), &regs[*reg as usize], &sch(*key), topic).is_ok();
                             let per_key = m.iter().filter(|t| t.0 == *key).count();
                             let keys_in_topic: BTreeSet<u32> = m.iter().filter(|t| t.1 == *topic).map(|t| t.0).collect();
                             let x = !m.contains(&(*key, *topic, *reg)) && per_key < 20 && (keys_in_topic.contains(key) || keys_in_topic.len() < 50);
@@ -629,7 +631,7 @@ impl Check for Registries {
                             ("allow_key", g, x)
                         }
                         Step::RemoveKey { key, topic, reg } => {
-                            let g = c.try_remove(&pk(*key), &regs[*reg as usize], &1, topic).is_ok();
+                            let g = c.try_remove(&pk(*key), &regs[*reg as usize], &sch(*key), topic).is_ok();
                             let x = m.remove(&(*key, *topic, *reg));
                             ("remove_key", g, x)
                         }
@@ -645,24 +647,24 @@ impl Check for Registries {
                         return Err(violation("fail.no_trace", kind, i, format!("{s:?}")));
                     }
                     // the three everyday keys plus, in the limit scenario, the first / last / overflow keys and whatever the step named
-                    let mut ks: std::vec::Vec<u32> = vec![0, 1, 2];
+                    let mut ks: std::vec::Vec<u32> = vec![0, 1, 2, 1000, 1001, 1002];
                     if m.iter().any(|x| x.0 >= 10) { ks.extend([10, 59, 60, 61, 62]); }
                     if let Step::AllowKey { key, .. } | Step::RemoveKey { key, .. } = s { if !ks.contains(key) { ks.push(*key); } }
                     for k in ks {
                         for t in 0..5u32 {
                             let want = m.iter().any(|x| x.0 == k && x.1 == t);
-                            if c.allowed_topic(&pk(k), &1, &t) != want {
+                            if c.allowed_topic(&pk(k), &sch(k), &t) != want {
                                 return Err(violation("keys.getters_eq_model", "allowed_topic", i, format!("key {k} topic {t}: model {want}")));
                             }
                         }
                         for r in 0..5u32 {
                             let want = m.iter().any(|x| x.0 == k && x.2 == r);
-                            if c.allowed_registry(&pk(k), &1, &regs[r as usize]) != want {
+                            if c.allowed_registry(&pk(k), &sch(k), &regs[r as usize]) != want {
                                 return Err(violation("keys.getters_eq_model", "allowed_registry", i, format!("key {k} registry {r}: model {want}")));
                             }
                         }
                         let n = m.iter().filter(|x| x.0 == k).count();
-                        match c.try_registries(&pk(k), &1) {
+                        match c.try_registries(&pk(k), &sch(k)) {
                             Ok(Ok(v)) if v.len() as usize == n && n > 0 => {}
                             Err(_) if n == 0 => {}
                             r => return Err(violation("keys.getters_eq_model", "registries", i, format!("key {k}: {:?} entries, model {n}", r.map(|x| x.map(|v| v.len()))))),
@@ -671,12 +673,12 @@ impl Check for Registries {
                     for t in 0..5u32 {
                         let want: BTreeSet<u32> = m.iter().filter(|x| x.1 == t).map(|x| x.0).collect();
                         match c.try_keys_for_topic(&t) {
-                            Ok(Ok(v)) if v.len() as usize == want.len() && !want.is_empty() => {}
+                            Ok(Ok(v)) if v.len() as usize == want.len() && !want.is_empty() && want.iter().all(|k| v.iter().any(|sk| sk.public_key == pk(*k) && sk.scheme == sch(*k))) => {}
                             Err(_) if want.is_empty() => {}
                             r => return Err(violation("keys.getters_eq_model", "keys_for_topic", i, format!("topic {t}: {:?} keys, model {want:?}", r.map(|x| x.map(|v| v.len()))))),
                         }
                     }
-                    st.state(&((0..3u32).map(|k| m.iter().filter(|x| x.0 == k).count()).collect::<std::vec::Vec<_>>(), kind));
+                    st.state(&([0u32, 1, 2, 1000, 1001, 1002].iter().map(|k| m.iter().filter(|x| x.0 == *k).count()).collect::<std::vec::Vec<_>>(), kind));
                 }
             }
         }
